@@ -404,7 +404,7 @@ def api_name(p):
     return 'stat'
 
 
-async def run_schedule(mode, prog, replies, pick, ridbase=10, max_steps=4000, lid0=None, write_yield=False, line_yield=False):
+async def run_schedule(mode, prog, replies, pick, ridbase=10, max_steps=4000, lid0=None, write_yield=False, line_yield=False, reps=None, write_fault=None):
     """One execution of the real code under a schedule chosen by pick(enabled) -> (trace, info)."""
     w = World(mode, prog, replies, ridbase, lid0=lid0)
     w.gate.write_yield = write_yield
@@ -424,6 +424,40 @@ async def run_schedule(mode, prog, replies, pick, ridbase=10, max_steps=4000, li
     w.line_yield = line_yield and mode == 'sync'
     w.op_plain = w.op
     w.op = lambda t: _wrap_op(w, t, w.op_plain(t), api_name(prog[t]))
+    if reps:
+        # a thread runs its operation several times in a row; a failed one does not stop it
+        one = w.op
+
+        def seq(t):
+            n = reps.get(t, 1)
+            if mode == 'sync':
+                def run():
+                    v = None
+                    for _i in range(n):
+                        try:
+                            v = one(t)()
+                        except sched.Abort:
+                            raise
+                        except Exception:  # noqa
+                            pass
+                    return v
+                return run
+
+            async def arun():
+                v = None
+                for _i in range(n):
+                    try:
+                        v = await one(t)()
+                    except sched.Abort:
+                        raise
+                    except Exception:  # noqa
+                        pass
+                return v
+            return arun
+        w.op = seq
+    if write_fault:
+        w.gate.write_fault = write_fault
+        w.gate.write_exc = w.core.exc_timeout
     await w.start()
     sched_log = []
     try:
@@ -464,7 +498,7 @@ async def run_schedule(mode, prog, replies, pick, ridbase=10, max_steps=4000, li
     for e in w.rec.events:
         f = {k: v for k, v in e.items() if not k.startswith('_')}
         if e['ev'] == 'tx' and e['cmd'] == 'OPEN':
-            lid_of.setdefault(e['t'], wire.unlimbs(e['a0']))
+            lid_of[e['t']] = wire.unlimbs(e['a0'])        # the stream of the thread's operation in progress
         if e['ev'] == 'ret':
             t = e['t']
             f['mode'], f['syms'], f['avail'] = 'units', [], True
@@ -488,7 +522,7 @@ async def run_schedule(mode, prog, replies, pick, ridbase=10, max_steps=4000, li
     return tr, dict(stuck=stuck, schedule=sched_log, results={t: w.results.get(t) for t in w.threads}, lids=dict(lid_of), pushed=pushed)
 
 
-def explore(mode, prog, replies, n, rng, ridbase=10, lid0=None, write_yield=False, line_yield=False):
+def explore(mode, prog, replies, n, rng, ridbase=10, lid0=None, write_yield=False, line_yield=False, reps=None, write_fault=None):
     """n random schedules (uniform and sticky mixes)."""
     async def main():
         out = []
@@ -516,7 +550,8 @@ def explore(mode, prog, replies, n, rng, ridbase=10, lid0=None, write_yield=Fals
                 c = en[rng.randrange(len(en))]
                 last[0] = c
                 return c
-            out.append(await run_schedule(mode, prog, replies, pick, ridbase, lid0=lid0, write_yield=write_yield, line_yield=line_yield))
+            out.append(await run_schedule(mode, prog, replies, pick, ridbase, lid0=lid0, write_yield=write_yield, line_yield=line_yield, reps=reps,
+                                          write_fault=write_fault(rng) if callable(write_fault) else write_fault))
         return out
     loop = asyncio.new_event_loop()
     try:
